@@ -145,7 +145,7 @@ func testChunks(t *testing.T) {
 		}
 		emit("corpus", rs, 2, 1000, 1000, 0o644)
 	}
-	n := r.N(120, 3000)
+	n := r.N(90, 3000)
 	for i := 0; i < n; i++ {
 		var rs []run
 		var total int
@@ -363,7 +363,7 @@ func testPipeline(t *testing.T) {
 		}()
 		var msgs []msgObs
 		finished := false
-		deadline := time.After(2500 * time.Millisecond)
+		deadline := time.After(5 * time.Second)
 	loop:
 		for {
 			select {
@@ -550,5 +550,5 @@ func testPipeline(t *testing.T) {
 		}
 		runCase(kind, pc)
 	}
-	r.Finish("corpus of 19 transfers (one byte, empty file, 1/3/14/40 chunks, missing target small+large, engine rejecting at once / after a partial read, buffer boundary 11/12 chunks, read-all-then-error, duplicated targets, engine returning success unread, no targets), then random transfers: size empty / below a chunk / 1-8 chunks / 9-38 chunks, 1-3 of 3 real workloads, 45% all engines drain, 15% one missing target, 10% duplicated target, 20% one engine aborts after k bytes, 10% drain then error; each through the real Calcium.SendLargeFile with a 2.5 s deadline; non-trivial = non-empty file and at least one target")
+	r.Finish("corpus of 19 transfers (one byte, empty file, 1/3/14/40 chunks, missing target small+large, engine rejecting at once / after a partial read, buffer boundary 11/12 chunks, read-all-then-error, duplicated targets, engine returning success unread, no targets), then random transfers: size empty / below a chunk / 1-8 chunks / 9-38 chunks, 1-3 of 3 real workloads, 45% all engines drain, 15% one missing target, 10% duplicated target, 20% one engine aborts after k bytes, 10% drain then error; each through the real Calcium.SendLargeFile with a 5 s deadline; non-trivial = non-empty file and at least one target")
 }
